@@ -10,6 +10,7 @@
 #include <QJsonDocument>
 #include <QJsonObject>
 
+#include <cstring>
 #include <iostream>
 
 #include "formatters/patternformatter.h"
@@ -118,7 +119,28 @@ int main(int argc, char **argv)
         const QByteArray file = fromUnits(c["file"].toArray()).toUtf8();
         const QByteArray func = fromUnits(c["func"].toArray()).toLatin1();
         const QByteArray cat = fromUnits(c["cat"].toArray()).toUtf8();
-        QMessageLogContext ctx(file.constData(), c["line"].toInt(), func.constData(), cat.constData());
+        PatternFormatter f(fromUnits(c["pattern"].toArray()));
+        // Every other case, the formatter object has a history: it formatted another message before, whose context
+        // strings lived at the very same addresses (a caller that reuses its buffers, heap blocks handed out again)
+        // and whose type, text and attributes were different - none of that may show in the output for this message.
+        const bool history = c["id"].toInt() % 2 == 1;
+        QByteArray fileBuf(file.size() + 32, '\0'), funcBuf(func.size() + 32, '\0'), catBuf(cat.size() + 32, '\0');
+        auto put = [](QByteArray &buf, const QByteArray &v) { memcpy(buf.data(), v.constData(), size_t(v.size()) + 1); };
+        if (history) {
+            put(fileBuf, QByteArray("earlier/dir/other_file.cpp"));
+            put(funcBuf, QByteArray("int other::function(char)"));
+            put(catBuf, QByteArray("other.category"));
+            const QtMsgType realType = typeOf(c["type"].toString());
+            QMessageLogContext dctx(fileBuf.constData(), 4242, funcBuf.constData(), catBuf.constData());
+            LogMessage decoy(realType == QtWarningMsg ? QtInfoMsg : QtWarningMsg, dctx, QStringLiteral("an earlier message %{x}"));
+            decoy.setAttribute(QStringLiteral("earlier_only"), 7);
+            (void)f.format(decoy);
+        }
+        put(fileBuf, file);
+        put(funcBuf, func);
+        put(catBuf, cat);
+        QMessageLogContext ctx(history ? fileBuf.constData() : file.constData(), c["line"].toInt(),
+                               history ? funcBuf.constData() : func.constData(), history ? catBuf.constData() : cat.constData());
         LogMessage msg(typeOf(c["type"].toString()), ctx, fromUnits(c["text"].toArray()));
         for (const auto &a : c["attrs"].toArray()) {
             const QJsonObject o = a.toObject();
@@ -131,7 +153,6 @@ int main(int argc, char **argv)
             else
                 msg.setAttribute(fromUnits(o["k"].toArray()), fromUnits(o["v"].toArray()));
         }
-        PatternFormatter f(fromUnits(c["pattern"].toArray()));
         QJsonObject r;
         r["e"] = "Case";
         r["id"] = c["id"];
